@@ -2026,7 +2026,8 @@ void EGLPNUM_TYPENAME_ILLfct_update_dpI_prices (
 	EGLPNUM_TYPE ntmp;
 
 	EGLPNUM_TYPENAME_EGlpNumInitVar (ntmp);
-	EGLPNUM_TYPENAME_EGlpNumZero (ntmp);
+	/* without bound flips the entering variable moves by alpha alone */
+	EGLPNUM_TYPENAME_EGlpNumCopy (ntmp, alpha);
 
 	if (srhs->nzcnt == 0)
 	{
